@@ -1,0 +1,180 @@
+//! Verification hooks, compiled only with `--cfg folo_verif` (never in a normal build).
+//!
+//! A verification harness installs one process-global table of functions ([`install`]). While
+//! nothing is installed every hook is a no-op and every wrapped blocking operation is the plain
+//! blocking operation of the normal build.
+//!
+//! * [`point`]: a named yield point *before* an operation on shared state (worker start-up,
+//!   lazy worker creation, enqueue, dequeue, listener registration and re-check, shutdown). A
+//!   harness parks the calling thread there to force an interleaving.
+//! * [`event`]: something has just happened (state created, task enqueued or dequeued - emitted
+//!   while the queue lock is held -, task start and end, shutdown stored).
+//! * [`wait_listener`], [`lock`], [`CoopJoin`]: the three operations of the pool that block for an
+//!   unbounded time. With a table installed they first ask the harness to block cooperatively
+//!   (`blocked` returns `true` after having yielded to other threads) and only fall back to the
+//!   real blocking primitive when the harness declines (`false`).
+//! * [`worker_spawning`] / [`worker_started`] / [`worker_exiting`]: the lifecycle of worker
+//!   threads, so that a harness can take threads created by the pool under its control.
+
+use std::future::Future;
+use std::pin::Pin;
+use std::sync::{LockResult, Mutex, MutexGuard, OnceLock, TryLockError};
+use std::task::{Context, Poll, Waker};
+use std::thread;
+
+/// Functions a verification harness installs.
+#[derive(Clone, Copy, Debug)]
+#[non_exhaustive]
+pub struct Hooks {
+    /// Named yield point before an operation; the integer is the processor id concerned.
+    pub point: fn(&'static str, u64),
+    /// Something happened: name, processor id, detail (task address, flag, ...).
+    pub event: fn(&'static str, u64, u64),
+    /// The calling thread cannot make progress (`reason` says why). Returns `true` if the
+    /// harness has yielded to other threads and the caller should test its condition again,
+    /// `false` if the caller must use the real blocking primitive.
+    pub blocked: fn(&'static str) -> bool,
+    /// A worker thread is about to be created for (processor, worker index) by the calling
+    /// thread. The returned token is handed to [`Hooks::worker_started`] on the new thread.
+    pub worker_spawning: fn(u64, u64) -> u64,
+    /// First thing a worker thread does.
+    pub worker_started: fn(u64),
+    /// Last thing a worker thread does (also when it unwinds).
+    pub worker_exiting: fn(u64),
+    /// Has the worker thread with this id finished (`Some`), or is it unknown to the
+    /// harness (`None`: use the real join)?
+    pub worker_finished: fn(thread::ThreadId) -> Option<bool>,
+}
+
+impl Hooks {
+    /// A table whose functions do nothing and decline to block cooperatively; a harness
+    /// overwrites the fields it needs.
+    #[must_use]
+    pub fn noop() -> Self {
+        Self {
+            point: |_, _| {},
+            event: |_, _, _| {},
+            blocked: |_| false,
+            worker_spawning: |_, _| 0,
+            worker_started: |_| {},
+            worker_exiting: |_| {},
+            worker_finished: |_| None,
+        }
+    }
+}
+
+static HOOKS: OnceLock<Hooks> = OnceLock::new();
+
+/// Installs the hook table. Only the first call has an effect; returns whether it did.
+pub fn install(hooks: Hooks) -> bool {
+    HOOKS.set(hooks).is_ok()
+}
+
+#[inline]
+pub(crate) fn point(name: &'static str, processor: u64) {
+    if let Some(h) = HOOKS.get() {
+        (h.point)(name, processor);
+    }
+}
+
+#[inline]
+pub(crate) fn event(name: &'static str, processor: u64, detail: u64) {
+    if let Some(h) = HOOKS.get() {
+        (h.event)(name, processor, detail);
+    }
+}
+
+/// Address of a queued task, as a small-integer-mappable identity for enqueue/dequeue events.
+pub(crate) fn task_address(task: &crate::ErasedTaskHandle) -> u64 {
+    let r: &dyn crate::VicinalTask = &**task;
+    std::ptr::from_ref(r).cast::<()>() as usize as u64
+}
+
+pub(crate) fn worker_spawning(processor: u64, index: u64) -> u64 {
+    HOOKS.get().map_or(0, |h| (h.worker_spawning)(processor, index))
+}
+
+/// Announces the start of a worker thread; the returned guard announces its end.
+pub(crate) fn worker_started(token: u64) -> WorkerGuard {
+    if let Some(h) = HOOKS.get() {
+        (h.worker_started)(token);
+    }
+    WorkerGuard { token }
+}
+
+#[derive(Debug)]
+pub(crate) struct WorkerGuard {
+    token: u64,
+}
+
+impl Drop for WorkerGuard {
+    fn drop(&mut self) {
+        if let Some(h) = HOOKS.get() {
+            (h.worker_exiting)(self.token);
+        }
+    }
+}
+
+/// `listener.wait()`, cooperatively if a harness is in control: the listener stays registered
+/// and is polled until it has been notified.
+pub(crate) fn wait_listener<L>(mut listener: L)
+where
+    L: event_listener::Listener<()> + Future<Output = ()> + Unpin,
+{
+    if let Some(h) = HOOKS.get() {
+        let mut cx = Context::from_waker(Waker::noop());
+        loop {
+            if let Poll::Ready(()) = Pin::new(&mut listener).poll(&mut cx) {
+                return;
+            }
+            if !(h.blocked)("w.wait") {
+                break;
+            }
+        }
+    }
+    listener.wait();
+}
+
+/// `mutex.lock()`, cooperatively if a harness is in control.
+pub(crate) fn lock<'a, T>(mutex: &'a Mutex<T>, reason: &'static str) -> LockResult<MutexGuard<'a, T>> {
+    if let Some(h) = HOOKS.get() {
+        loop {
+            match mutex.try_lock() {
+                Ok(guard) => return Ok(guard),
+                Err(TryLockError::Poisoned(poisoned)) => return Err(poisoned),
+                Err(TryLockError::WouldBlock) => {
+                    if !(h.blocked)(reason) {
+                        break;
+                    }
+                }
+            }
+        }
+    }
+    mutex.lock()
+}
+
+/// A worker thread's join handle whose `join` is cooperative if a harness is in control of the
+/// joined thread.
+#[derive(Debug)]
+pub(crate) struct CoopJoin {
+    handle: thread::JoinHandle<()>,
+    reason: &'static str,
+}
+
+impl CoopJoin {
+    pub(crate) fn new(handle: thread::JoinHandle<()>, reason: &'static str) -> Self {
+        Self { handle, reason }
+    }
+
+    pub(crate) fn join(self) -> thread::Result<()> {
+        if let Some(h) = HOOKS.get() {
+            let id = self.handle.thread().id();
+            while (h.worker_finished)(id) == Some(false) {
+                if !(h.blocked)(self.reason) {
+                    break;
+                }
+            }
+        }
+        self.handle.join()
+    }
+}
